@@ -67,6 +67,10 @@ def specEntries (A : Aead) (C : Codec Y) (pw : Option Bytes) (ms : List Member) 
     List (Name × Option Y × Option Y × Option Int) :=
   (firstSeen (crNames ms)).map fun n => (n, specCr C n ms, specSecret A C pw n ms, specGen C n ms)
 
+/-- no member of the archive carries an encrypted-secret name -/
+def noEnc (ms : List Member) : Bool :=
+  ms.all fun m => match classify m.1 with | some (.secEnc, _) => false | _ => true
+
 def Entry.view (e : Entry Y) : Name × Option Y × Option Y × Option Int := (e.name, some e.cr, e.secret, e.generation)
 
 end Archive
